@@ -122,6 +122,10 @@ type Conn struct {
 	stalledUntil time.Time
 	blackhole    bool // responses silently dropped (half-open)
 	dead         atomic.Bool
+	// resetAt: instant (UnixNano) at which the connection was reset while a
+	// response was still owed on it - the client has a read outstanding and
+	// notices; 0 otherwise
+	resetAt atomic.Int64
 	tainted      bool // a byte-level mutation happened on s2c
 	omu          sync.Mutex
 	outstanding  map[int32]*reqInfo
@@ -419,6 +423,12 @@ func (n *SimNet) dial(ctx context.Context, client, address string) (net.Conn, er
 
 // kill resets a connection: both directions closed, undelivered frames lost.
 func (c *Conn) kill() {
+	c.omu.Lock()
+	owed := len(c.outstanding)
+	c.omu.Unlock()
+	if owed > 0 {
+		c.resetAt.CompareAndSwap(0, time.Now().UnixNano())
+	}
 	c.dead.Store(true)
 	c.c2s.mu.Lock()
 	c.c2s.q = nil
